@@ -126,6 +126,19 @@ pub fn check_report(
         }
         return v;
     }
+    // NumericalError is the solver's own statement that its arithmetic broke down
+    // (typically the homogeneous iterate and tau both at the 1e150 scale, so that
+    // the internal dot products overflow although x/tau is moderate): a non-finite
+    // figure reported under that status is not compared
+    if snap.status == SolverStatus::NumericalError
+        && !(snap.obj_val.is_finite()
+            && snap.obj_val_dual.is_finite()
+            && snap.r_prim.is_finite()
+            && snap.r_dual.is_finite())
+    {
+        probe("c03_numerical_error_nonfinite_report");
+        return v;
+    }
     if !close(snap.obj_val, rec.obj) {
         v.push(Violation::new(
             "C03.obj_val",
